@@ -21,6 +21,10 @@ TEXTS = [
     '<[Oxidation]@C-Term,E>PEPTIDE', '<13C>PEPTIDE', '<15N>PEP[Acetyl]TIDE', '<18O>PEPTIDE-[Amidated]', '<D>PEPTIDE', '<13C><15N>PEPTK',
     'PEPTIDE/2', 'PEPTIDE/-2', 'PEPTIDE/2[+Na+,+H+]', 'PEPTIDE/3[+2Na+,+H+]', 'PEP[1.5][Oxidation]TIDE/2', '[1.5]-PEPT[Formula:[13C2]H4]IDE',
     'PEP[Glycan:HexNAc2Hex3]TIDE', 'PEM[Unimod:35]TIDE', 'PEP[MOD:00046]TIDE', '<T>PEPTIDE',
+    # labile modifications that are plain mass shifts (lost on every fragment ion), alone / with a labelled peptide
+    '{100}PEPTIDE', '{+3.5}{Glycan:Hex}PEPT[1]IDE', '<13C>{100}PEPTIDE',
+    # a static mass-shift rule hitting the same residue three times / beside another modification / with a multiplier
+    '<[10]@T>PEPTTTIDE', '<[10]^2@T>PEPTTTIDE', '<[10]@T>PEPTT[1]TIDE',
 ]
 
 
@@ -112,6 +116,13 @@ def run(rec, tier, seed):
         for mono in (True, False):
             inp = dict(text='PEPTIDE', ion='p', charge=2, isotope=0, mono=mono, adducts=ad)
             rec.guarded('mass-equals-composition', inp, lambda: case(inp), fk)
+    # the adduct ARGUMENT on labelled / already charged peptides and on fragment ions (it overrides what the text says)
+    for text in ('<13C>PEPTIDE', '<15N>PEP[Acetyl]TIDE', 'PEP[1.5]TIDE/2[+H+,+K+]', '{100}PEPTIDE'):
+        for ion in ('p', 'b', 'y', 'cz'):
+            for ad, q in (('+Na+', 1), ('+Na+,+H+', 2)):
+                for mono in (True, False):
+                    inp = dict(text=text, ion=ion, charge=q, isotope=0, mono=mono, adducts=ad)
+                    rec.guarded('mass-equals-composition', inp, lambda: case(inp), fk)
     # exhaustive over the vocabularies
     for db, prefix in ((dbs.UNIMOD_DB, 'UNIMOD:'), (dbs.PSI_MOD_DB, 'MOD:')):
         ents = list(db.id_map.values())
